@@ -130,9 +130,9 @@ def no_input_case(pr):
     return None
 
 
-def missing_path_case(pr):
+def missing_path_case(pr, first=False):
     pr.write("src/a.txt", "1")
-    pr.write("zinoma.yml", yml({"t": _t([{"paths": ["src", "nowhere"]}], None)}))
+    pr.write("zinoma.yml", yml({"t": _t([{"paths": ["nowhere", "src", "neither"] if first else ["src", "nowhere"]}], None)}))
     r = pr.run("t")
     if r.rc != 0 or not _ran(pr):
         return {"property": "C15", "expected": "a missing declared path contributes nothing: build runs, exit 0", "observed": "exit %s" % r.rc, "zinoma": r.brief()}
@@ -140,6 +140,11 @@ def missing_path_case(pr):
     r = pr.run("t")
     if r.rc != 0 or _ran(pr):
         return {"property": "C15", "expected": "second run skipped (missing path still contributes nothing)", "observed": "exit %s ran %s" % (r.rc, _ran(pr)), "zinoma": r.brief()}
+    pr.edit("src/a.txt", "2-longer")
+    pr.clear_log()
+    r = pr.run("t")
+    if not _ran(pr):
+        return {"property": ["C15", "C02"], "expected": "a missing path next to an existing one contributes nothing and takes nothing away: rewriting src/a.txt forces the build", "observed": "skipped", "zinoma": r.brief()}
     return None
 
 
@@ -680,6 +685,77 @@ def xoutput_filtered_case(pr):
     return None
 
 
+def shared_cmd_case(pr):
+    """a command whose output one target's build changes, declared by that target (as output), by its consumer (through
+    X.output) and by an unrelated target (as input): every skip decision uses what the command prints NOW"""
+    pr.write("version.txt", "1")
+    pr.write("trigger/t.txt", "t1")
+    bump = _t([{"paths": ["trigger"]}], [{"cmd_stdout": "cat version.txt"}], name="bump", body="sleep 0.5; echo $(( $(cat version.txt) + 1 )) > version.txt")
+    package = _t(["bump.output"], None, name="package")
+    notes = _t([{"cmd_stdout": "cat version.txt"}], None, name="notes")
+    pr.write("zinoma.yml", yml({"bump": bump, "package": package, "notes": notes}))
+    _run_ok(pr, "package", "notes")
+    pr.clear_log()
+    _run_ok(pr, "package", "notes")          # notes may run again (bump changed the text after notes looked at it)
+    pr.clear_log()
+    _run_ok(pr, "package", "notes")
+    if pr.log():
+        return {"property": "C03", "expected": "third invocation on an untouched tree: nothing runs", "observed": "log %s" % pr.log()}
+    pr.edit("trigger/t.txt", "t2-longer")     # bump runs again and changes what `cat version.txt` prints
+    pr.clear_log()
+    r = _run_ok(pr, "package", "notes")
+    log = pr.log()
+    if "s bump" not in log:
+        return {"property": "C02", "expected": "bump's input changed: it runs", "observed": "log %s" % log, "zinoma": r.brief()}
+    if "s package" not in log:
+        return {"property": ["C02", "C13"], "expected": "bump changed what `cat version.txt` prints (its declared output, an input of package): package runs in the same invocation", "observed": "package skipped; log %s" % log, "zinoma": r.brief()}
+    pr.clear_log()
+    r = _run_ok(pr, "package", "notes")
+    if "s notes" not in log and "s notes" not in pr.log():
+        return {"property": "C02", "expected": "`cat version.txt` (input of notes) prints another text than recorded: notes runs, in that invocation or the next", "observed": "notes skipped twice; log %s" % pr.log(), "zinoma": r.brief()}
+    return None
+
+
+def other_target_sets_case(pr):
+    """invocations with different target sets do not disturb each other's records"""
+    ts = {}
+    for n in ("a", "b", "c"):
+        pr.write("in_%s/x.txt" % n, "1")
+        ts[n] = _t([{"paths": ["in_%s" % n]}], [{"paths": ["out_%s.txt" % n]}], name=n, body="echo 1 > out_%s.txt" % n)
+    ts["all"] = {"dependencies": ["a", "b"]}
+    pr.write("lib/in/x.txt", "1")
+    pr.write("lib/zinoma.yml", yml({"pack": _t([{"paths": ["in"]}], None, name="pack")}, name="lib"))
+    pr.write("zinoma.yml", yml(ts, name="root", imports={"lib": "lib"}))
+    _run_ok(pr, "all", "c", "lib::pack")
+    for args in (["a"], ["b"], ["c"], ["lib::pack"], ["all"], ["a", "c"], ["all", "c", "lib::pack"]):
+        pr.clear_log()
+        r = _run_ok(pr, *args)
+        if pr.log():
+            return {"property": ["C03", "C08", "C18"], "expected": "every target was built once; on the untouched tree `zinoma %s` (after invocations with other target sets) runs nothing" % " ".join(args), "observed": "log %s" % pr.log(), "zinoma": r.brief()}
+    return None
+
+
+def xoutput_dotdot_case(pr):
+    """an imported project writes into a shared directory above itself: output declared as ../dist/gen.txt"""
+    pr.write("lib/src.txt", "one")
+    pr.write("lib/zinoma.yml", yml({"gen": _t([{"paths": ["src.txt"]}], [{"paths": ["../dist/gen.txt"]}], name="gen", body="mkdir -p ../dist && cat src.txt > ../dist/gen.txt")}, name="lib"))
+    pr.write("zinoma.yml", yml({"use": _t(["lib::gen.output"], None, name="use")}, name="root", imports={"lib": "lib"}))
+    _run_ok(pr, "use")
+    pr.clear_log()
+    _run_ok(pr, "use")
+    if pr.log():
+        return {"property": "C03", "expected": "untouched tree: nothing runs", "observed": "log %s" % pr.log()}
+    pr.edit("lib/src.txt", "two-longer")
+    pr.clear_log()
+    r = _run_ok(pr, "use")
+    if "s use" not in pr.log():
+        return {"property": ["C13", "C15"], "expected": "lib::gen rewrote dist/gen.txt (declared as ../dist/gen.txt in lib): its consumer runs", "observed": "log %s" % pr.log(), "zinoma": r.brief()}
+    r = pr.run("--clean")
+    if pr.exists("dist/gen.txt"):
+        return {"property": ["C12", "C15"], "expected": "--clean removes dist/gen.txt (declared as ../dist/gen.txt in lib)", "observed": "still there", "zinoma": r.brief()}
+    return None
+
+
 def cases(seed, tier="quick"):
     C = lambda n, fn, what: Case("incr", n, fn, what)
     out = [
@@ -703,9 +779,13 @@ def cases(seed, tier="quick"):
         C("workdir-inside", skip_then("edit src/.zinoma/x", lambda p: p.edit("src/.zinoma/x", "2-longer"), False, "C15", extra={"src/.zinoma/x": "1"}, why=" (inside a directory named .zinoma)"), ".zinoma directory below the listed path is pruned"),
         C("corrupt-each-byte", corrupt_each_byte_case, "every single-byte corruption of the record + a changed output"),
         C("cmd-input", cmd_input_case, "cmd_stdout input of the target itself"),
+        C("shared-cmd", shared_cmd_case, "a command output changed by a build of the same run, shared by three targets"),
+        C("other-target-sets", other_target_sets_case, "invocations with other target sets leave records alone"),
         C("xoutput-filtered", xoutput_filtered_case, "X.output with an extension filter"),
         C("no-input", no_input_case, "no input: always executed"),
         C("missing-path", missing_path_case, "missing path contributes nothing"),
+        C("missing-path-first", lambda pr: missing_path_case(pr, True), "missing path listed before an existing one"),
+        C("xoutput-dotdot", xoutput_dotdot_case, "producer output declared with a leading .."),
         C("symlink-file", symlink_case, "link to a regular file inside the listed directory"),
         C("symlink-dir", symlink_dir_case, "link to a directory is not followed"),
         C("many-files", many_files_case, "large record is read back"),
